@@ -1,6 +1,7 @@
 package main
 
 import (
+	"bytes"
 	"flag"
 	"fmt"
 	"os"
@@ -66,11 +67,6 @@ func run() error {
 	for _, w := range warnings {
 		fmt.Fprintf(os.Stderr, "warning: %v\n", w)
 	}
-	out, err := os.Create(*outputFile)
-	if err != nil {
-		return fmt.Errorf("failed to open output file: %w", err)
-	}
-	defer out.Close()
 	importMode := bebop.ImportGenerationModeSeparate
 	if *combinedImports {
 		importMode = bebop.ImportGenerationModeCombined
@@ -84,8 +80,42 @@ func run() error {
 		PrivateDefinitions:        *privateDefinitions,
 		AlwaysUsePointerReceivers: *pointerReceivers,
 	}
+	// Generate into memory and replace the output file only once everything has
+	// succeeded, so that a failed run never destroys previously generated code.
+	out := &bytes.Buffer{}
 	if err := bopf.Generate(out, settings); err != nil {
 		return fmt.Errorf("failed to generate file: %w", err)
 	}
+	if err := writeFileAtomic(*outputFile, out.Bytes()); err != nil {
+		return fmt.Errorf("failed to write output file: %w", err)
+	}
 	return nil
+}
+
+// writeFileAtomic writes data to a temporary file next to path and renames it into
+// place, so path holds either its old or its new contents, never a partial write.
+func writeFileAtomic(path string, data []byte) error {
+	mode := os.FileMode(0o644)
+	if info, err := os.Stat(path); err == nil {
+		mode = info.Mode().Perm()
+	}
+	tmp, err := os.CreateTemp(filepath.Dir(path), "."+filepath.Base(path)+".tmp-*")
+	if err != nil {
+		return err
+	}
+	tmpName := tmp.Name()
+	_, err = tmp.Write(data)
+	if cerr := tmp.Close(); err == nil {
+		err = cerr
+	}
+	if err == nil {
+		err = os.Chmod(tmpName, mode)
+	}
+	if err == nil {
+		err = os.Rename(tmpName, path)
+	}
+	if err != nil {
+		os.Remove(tmpName)
+	}
+	return err
 }
